@@ -465,6 +465,8 @@ func C17(ctx *core.Ctx, r *core.Report) {
 		r.Borrow(sub, "cache-dropped-on-mutation")
 	}
 	c17LessComparesWholeKey(ctx, r)
+	c17IndexNilOnError(ctx, r)
+	c18ExistingEntryIsNotEmpty(ctx, r)
 }
 
 // c17TupleBound: in val.CompareVals every index into the second tuple must be
